@@ -99,6 +99,29 @@ def check(tier, seed):
                 if isinstance(cx, list) and isinstance(cy, list) and cx and cy and cx[0] == cy[0] == b'OK':
                     what = 'model' if cx[1] != cy[1] else 'diagnostics' if cx[2] != cy[2] else 'written text' if cx[3] != cy[3] else 'other'
                 inc_diffs.append((i, what))
+    # models built through the API (T::new() + push) and written: the constructors are generated code as well
+    api_diffs, n_api = [], 0
+    if fresh:
+        from checks import modlib as ml
+        acases = []
+        for i in range(60 if tier == 'quick' else 1500):
+            st = ml.gen_module(rng, rng.choice([0, 2, 6]), with_new=0)
+            st[0] = []
+            ops = []
+            for j in range(rng.choice([1, 3, 12])):
+                k = rng.randrange(20)
+                ops.append(['push', k, ml.el(ml.TAGS[k], 'new_%03d_%s' % (j, rng.choice('abxyz')), 0, 0, 2, 1)])
+            if rng.random() < 0.3:
+                ops.append(['sni'])
+            ops.append(['wt'])
+            acases.append([1, st, ops])
+        alines = [sx.enc(c_) for c_ in acases]
+        n_api = len(alines)
+        oa = fw.run_sharded([impl, 'C15'], alines)
+        ob = fw.run_sharded([fresh, 'C15'], alines)
+        for i, (x, y) in enumerate(zip(oa, ob)):
+            if x != y:
+                api_diffs.append(i)
     mism = []
     if model_exe:
         mout, _ = loadlib.run_model(tuples, res, model_exe)
@@ -114,8 +137,8 @@ def check(tier, seed):
         'rule': RULE, 'samples': [tuples[0][0][:300]],
         'programs': 2, 'disagreements_checked': len(diffs),
         'traces_validated_against_impl': len(tuples) - len(mism) if model_exe else 0,
-        'correspondence_mismatches': len(mism), 'fresh_vs_shipped_differences': len(diffs) + len(inc_diffs),
-        'multi_file_documents_compared': n_inc,
+        'correspondence_mismatches': len(mism), 'fresh_vs_shipped_differences': len(diffs) + len(inc_diffs) + len(api_diffs),
+        'multi_file_documents_compared': n_inc, 'api_built_models_compared': n_api,
         'correspondence_wall_s': round(time.time() - t1, 1), 'input_distribution': {'status': status},
         'trusted_base': ['the fresh build: copy of /repo with specification.rs := specification_orig.rs and a2lmacros taken from the in-tree path; rustc / cargo',
                          'translators, float oracle and extraction as in C01'],
@@ -140,6 +163,11 @@ def check(tier, seed):
         v.violation('input', {'kind': 'LOAD', 'case': lines[i], 'text': tuples[i][0], 'strict': tuples[i][1],
                               'why': 'the shipped code and the fresh expansion behave differently: ' + what,
                               'stage': 'W (differential of the two builds)'})
+    elif api_diffs:
+        i = api_diffs[0]
+        v.violation('input', {'kind': 'C15', 'case': alines[i], 'case_readable': acases[i],
+                              'why': 'the shipped code and the fresh expansion write a model built through the API (T::new() + push) differently',
+                              'stage': 'W (differential of the two builds, API-built models)'})
     elif inc_diffs:
         i, what = inc_diffs[0]
         c = icases[i]
@@ -167,6 +195,16 @@ def check(tier, seed):
 def replay(r):
     impl = fw.build_harness()
     fresh = fw.build_fresh_harness()
+    if r.get('kind') == 'C15':
+        a = fw.run_single([impl, 'C15'], r['case'], timeout=120)
+        b = fw.run_single([fresh, 'C15'], r['case'], timeout=120)
+        print('history:', str(r.get('case_readable'))[:1200])
+        from checks import modlib as ml
+        ta, tb = ml.decode_out(a), ml.decode_out(b)
+        print('shipped build writes:\n', (ta[-1][-1] if ta and isinstance(ta[-1], list) else a)[:1500] if ta else a[:400])
+        print('fresh build writes:\n', (tb[-1][-1] if tb and isinstance(tb[-1], list) else b)[:1500] if tb else b[:400])
+        print('oracle:', 'the two builds differ' if a != b else 'identical')
+        return 1 if a != b else 0
     if r.get('kind') == 'INCL':
         from checks import inclib, c16
         case = dict(files=r['files'], main=r['main'], strict=r['strict'])
